@@ -37,6 +37,8 @@ enum Op {
     DemonitorScope(&'static str, usize),
     Members(&'static str, &'static str),
     Listing,
+    /// the cell's status becomes Draining (it is still alive: it may join, leave and monitor)
+    Drainify(usize),
 }
 
 #[derive(Clone, Debug)]
@@ -115,6 +117,10 @@ fn run_op(op: &Op, cells: &[ActorCell]) -> Vec<ActorId> {
             let mut v: Vec<ActorId> = m.iter().map(|c| c.get_id()).collect();
             v.sort();
             v
+        }
+        Op::Drainify(w) => {
+            inspect::set_status(&cells[*w], ActorStatus::Draining);
+            vec![]
         }
         Op::Listing => {
             let _ = pg::which_groups();
@@ -554,6 +560,12 @@ fn scenarios() -> Vec<(Sc, Option<usize>, usize)> {
         ),
         (
             Sc { name: "leave-vs-join-other-group-then-exit", n_cells: 5, setup: vec![Op::Join(DS, "h", vec![a]), Op::Monitor("g", m)], threads: vec![vec![Op::Leave(DS, "h", vec![a])], vec![Op::Join(DS, "g", vec![a])]], strangers: vec![n, b], after: vec![Op::Exit(a), Op::Listing] },
+            None,
+            8,
+        ),
+        // a draining actor is alive: its joins and monitors take effect like anybody else's
+        (
+            Sc { name: "draining-actor-joins-and-monitors", n_cells: 5, setup: vec![Op::Drainify(a), Op::Drainify(mw), Op::Monitor("g", m), Op::Monitor("h", a), Op::MonitorScope("s", mw)], threads: vec![vec![Op::Join(DS, "g", vec![a, b]), Op::Members(DS, "g")], vec![Op::Join("s", "h", vec![a]), Op::Join(DS, "h", vec![b])]], strangers: vec![n], after: vec![Op::Members(DS, "g"), Op::Members("s", "h"), Op::Leave("s", "h", vec![a])] },
             None,
             8,
         ),
